@@ -21,7 +21,7 @@ TIER = 'quick'
 LEVEL = 'fault_enumeration'
 EVAL_PROBE = 'faulted-runs'
 ENGINE = 'fault'
-BUDGET = {'quick': 120, 'thorough': 5000}
+BUDGET = {'quick': 90, 'thorough': 5000}
 WALL = {'quick': 50, 'thorough': 1800}
 RULE = ('scenarios: trash-put of 1-2 entries with home, .Trash/$uid and .Trash-$uid candidates, first use and collisions; from the fault-free '
         'trace: one single-shot fault per op x applicable errno (all errnos for mutating ops; for reads one sampled errno in the quick tier, all in the thorough tier), persistent conditions '
@@ -48,7 +48,7 @@ def gen(rng):
         wd = L['work'][vol]
         aux = home + '/aux' if vol == '/' else vol + '/aux'
         p = wd + '/' + rng.choice(['foo', 'bar baz', 'ü']) + str(i)
-        G.make_entry(rng, p, rng.choice(['file', 'dir', 'link_file', 'link_dangling', 'empty']), steps, aux)
+        G.make_entry(rng, p, rng.choice(['file', 'dir', 'dir', 'deepdir', 'link_file', 'link_dangling', 'empty']), steps, aux)
         args.append(p)
     if rng.random() < 0.4:
         for a in args:
@@ -58,6 +58,16 @@ def gen(rng):
     if rng.random() < 0.15:
         opts.append('--home-fallback')
         env['TRASH_ENABLE_HOME_FALLBACK'] = '1'
+    if L['vols'] and rng.random() < 0.25:
+        # cross-volume scenario: the volume trash directories are unusable, so the (twice
+        # enabled) home fallback is what trashes the entry - every step of copy+delete is an op
+        steps[:] = [st_ for st_ in steps if not (st_[1].endswith('/.Trash') or '/.Trash-' in st_[1] or '/.Trash/' in st_[1])]
+        for v in L['vols']:
+            steps.append(['f', v + '/.Trash-%d' % uid, 'blocker', 0o600])
+        if '--home-fallback' not in opts:
+            opts.append('--home-fallback')
+        env['TRASH_ENABLE_HOME_FALLBACK'] = '1'
+        args[:] = [a for a in args if not a.startswith(home)] or args
     return {
         'world': {'mounts': L['mounts'], 'steps': steps},
         'procs': [{'argv': ['trash-put'] + opts + ['--'] + args, 'env': env, 'cwd': '/', 'uid': uid}],
